@@ -234,6 +234,9 @@ package drpcwire
 //   lower id -> error; different id or no partial packet -> start a new packet from this frame;
 //   same id, other kind -> error; same id -> concatenate, control bits OR-ed;
 //   more than the maximum -> error; done -> deliver and bump the message id.
+// Every protocol error the reader raises itself is justified by one of the four reasons of the
+// reference (incomplete head frame that can never fit; lower id; kind change; packet over the
+// maximum) — stated independently of the error texts and of where in the loop the error is raised.
 // "gid"/"gpkt" are ghost copies of the reader id and the partial packet taken at the loop head.
 //@ func (*Reader).ReadPacketUsing
 //@   mode int
@@ -263,11 +266,7 @@ package drpcwire
 //@   loop 1 step [C09,C01.pending-grows] !ok ==> len(r.curr) >= athead(len(r.curr))
 //@   loop 1 step [C09,C01.pending-kept]  !ok ==> forall i int :: 0 <= i && i < athead(len(r.curr)) ==> r.curr[i] == athead(r.curr[i])
 //@   site (*Class).Wrap assert [malformed]             pfStatus(r.curr) == 2
-//@   site (*Class).New assert [C09.overflow-justified] arg1 == "data overflow" ==> pfStatus(r.curr) == 1 && len(r.curr) > rdM(r) + 31
-//@   site (*Class).New assert [monotone-justified]     arg1 == "id monotonicity violation (fr:%v r:%v)" ==> idLess(fr.ID, r.id)
-//@   site (*Class).New assert [kind-justified]         arg1 == "packet kind change (fr:%v pkt:%v)" ==> fr.ID == r.id && !idZero(pkt.ID) && fr.Kind != pkt.Kind
-//@   site (*Class).New assert [size-justified]         arg1 == "data overflow (len:%v)" ==> len(pkt.Data) > rdM(r)
-//@   site (*Class).New assert [known-exit]             arg1 == "data overflow" || arg1 == "id monotonicity violation (fr:%v r:%v)" || arg1 == "packet kind change (fr:%v pkt:%v)" || arg1 == "data overflow (len:%v)"
+//@   site (*Class).New assert [C09,C18,C13.error-justified] (!ok && pfStatus(r.curr) == 1 && len(r.curr) > rdM(r) + 31) || (ok && idLess(fr.ID, r.id)) || (ok && fr.ID == r.id && !idZero(pkt.ID) && fr.Kind != pkt.Kind) || (ok && len(pkt.Data) > rdM(r))
 //@   ensures [ri]          err == nil ==> readerInv(r)
 //@   ensures [C01.noalias] err == nil ==> arr(pkt.Data) == 0 || (arr(pkt.Data) != arr(r.buf) && arr(pkt.Data) != arr(r.curr))
 //@   ensures [deliver]     err == nil ==> pkt.ID.Stream == r.id.Stream && pkt.ID.Message + 1 == r.id.Message
